@@ -97,7 +97,8 @@ class RdflibSgraph(SGraph):
             return URIRef(model_elem.iri)
         elif type(model_elem) == ModelLiteral:
             return Literal(lexical_or_value=str(model_elem),
-                           datatype=model_elem.elem_type)
+                           datatype=model_elem.elem_type,
+                           normalize=False)  # keep the lexical form the endpoint sent
         elif type(model_elem) == ModelBnode:
             return BNode(value=str(model_elem))
         else:
@@ -118,8 +119,12 @@ class RdflibSgraph(SGraph):
         :param rdflib_obj:
         :return:
         """
-        if type(rdflib_obj) == Literal and rdflib_obj.language is not None:
-           return '"' + str(rdflib_obj) + '"@' + rdflib_obj.language
+        if type(rdflib_obj) == Literal:
+            if rdflib_obj.language is not None:
+                return '"' + str(rdflib_obj) + '"@' + rdflib_obj.language
+            if rdflib_obj.datatype is not None:
+                return '"' + str(rdflib_obj) + '"^^<' + str(rdflib_obj.datatype) + '>'
+            return '"' + str(rdflib_obj) + '"'
         return rdflib_obj
 
     def _add_URI_corners_if_needed(self, rdflib_obj):
